@@ -91,6 +91,89 @@ fn inner_pdus() -> Vec<(&'static str, Vec<u8>)> {
     ]
 }
 
+/// well-formed but unusual frames (every length / count field consistent) that single byte-level faults do not
+/// reach: (description, frame)
+fn structured_frames() -> Vec<(String, Vec<u8>)> {
+    use vref::bytes::W;
+    let mut v: Vec<(String, Vec<u8>)> = vec![];
+    // share control: every PDU type (low 4 bits) x version bits x body length
+    for ty in 0..16u16 {
+        for hi in [0x10u16, 0x00, 0xFFF0] {
+            for blen in [0usize, 4, 14, 40] {
+                let mut body = W::new();
+                body.u32le(SID).bytes(&vec![0u8; blen.saturating_sub(4).min(blen)]);
+                let b: Vec<u8> = body.done().into_iter().take(blen).collect();
+                v.push((format!("share control type {:#x} body {}", ty | hi, blen), sdi(&share::share_control(ty | hi, 1002, &b))));
+            }
+        }
+    }
+    // share data: every pduType2 x payload length x compression / stream bytes, lengths consistent
+    for ty2 in 0..=0x40u8 {
+        for plen in [0usize, 4, 8, 12] {
+            v.push((format!("share data pduType2 {:#x} payload {}", ty2, plen), sdi(&share::share_data(SID, 1002, ty2, &vec![0x01; plen]))));
+        }
+    }
+    for (stream, ctype, clen) in [(0u8, 0u8, 0u16), (1, 0x20, 4), (2, 0x61, 0xFFFF), (4, 0xFF, 1)] {
+        let mut w = W::new();
+        w.u32le(SID).u8(0).u8(stream).u16le(4 + 18).u8(share::PDUTYPE2_PLAY_SOUND).u8(ctype).u16le(clen).bytes(&[1, 2, 3, 4]);
+        v.push((format!("share data stream {} compression {:#x} compressedLength {}", stream, ctype, clen), sdi(&share::share_control(share::PDUTYPE_DATA, 1002, &w.0))));
+    }
+    // demand-active: one capability of every type x body length; count one more / one less than present; no capability
+    for ty in (1..=0x1Eu16).chain([0u16, 0x1F, 0xFF, 0xFFFF]) {
+        for blen in [0usize, 4, 8, 84] {
+            let mut caps = share::minimal_caps();
+            caps.insert(1, share::CapSet { ty, body: vec![0x11; blen] });
+            v.push((format!("demand-active with capability type {:#x} body {}", ty, blen), sdi(&share::demand_active(SID, 1002, b"RDP\0", &caps, 0))));
+        }
+    }
+    for (delta, name) in [(1i32, "one more"), (-1, "one less"), (100, "a hundred more")] {
+        let caps = share::minimal_caps();
+        let capbytes: Vec<u8> = caps.iter().flat_map(share::cap_bytes).collect();
+        let mut w = W::new();
+        w.u32le(SID).u16le(4).u16le((capbytes.len() + 4) as u16).bytes(b"RDP\0").u16le((caps.len() as i32 + delta) as u16).u16le(0).bytes(&capbytes).u32le(0);
+        v.push((format!("demand-active announcing {} capability than present", name), sdi(&share::share_control(share::PDUTYPE_DEMANDACTIVE, 1002, &w.0))));
+    }
+    v.push(("demand-active without any capability".into(), sdi(&share::demand_active(SID, 1002, b"", &[], 0))));
+    v.push(("demand-active with 2000 capabilities".into(), sdi(&share::demand_active(SID, 1002, b"RDP\0", &vec![share::CapSet { ty: 0x0E, body: vec![0; 4] }; 2000], 0))));
+    // MCS: every domain PDU choice with a short body; every disconnect reason; indications on other channels / from other users
+    for choice in 0..64u8 {
+        for body in [&[][..], &[0x00][..], &[0x80, 0x00, 0x00, 0x00, 0x00, 0x00][..]] {
+            v.push((format!("MCS domain PDU choice {} body {}", choice, body.len()), framing::tpkt(&framing::x224_dt(&[&[choice << 2][..], body].concat()))));
+        }
+    }
+    for reason in 0..8u8 {
+        v.push((format!("disconnect ultimatum reason {}", reason), framing::tpkt(&framing::x224_dt(&mcs::disconnect_provider_ultimatum(reason)))));
+    }
+    for (init, ch) in [(1002u16, 1004u16), (1002, 0), (1002, 65535), (1001, 1003), (65535, 1003), (1007, 1007)] {
+        v.push((format!("send-data indication initiator {} channel {}", init, ch), framing::tpkt(&framing::x224_dt(&mcs::send_data_indication(init, ch, &share::set_error_info(SID, 1002, 0))))));
+    }
+    // fast-path: every update code x fragmentation x compression bit, size field consistent; rectangle counts vs present
+    for code in 0..16u8 {
+        for frag in 0..4u8 {
+            for comp in [0u8, 2] {
+                for blen in [0usize, 2, 4, 30] {
+                    let mut w = W::new();
+                    w.u8(code | (frag << 4) | (comp << 6));
+                    if comp != 0 {
+                        w.u8(0x21);
+                    }
+                    w.u16le(blen as u16).bytes(&vec![0x02; blen]);
+                    v.push((format!("fast-path update code {} fragmentation {} compression {} body {}", code, frag, comp, blen), framing::fastpath(0, &w.0, false)));
+                }
+            }
+        }
+    }
+    for announced in [0u16, 1, 2, 3, 100, 0xFFFF] {
+        let r = Rect { left: 0, top: 0, right: 1, bottom: 0, width: 2, height: 1, bpp: 16, flags: 0, data: vec![1, 2, 3, 4] };
+        let mut body = W::new();
+        body.u16le(1).u16le(announced).bytes(&r.bytes()).bytes(&r.bytes());
+        let mut w = W::new();
+        w.u8(1).u16le(body.0.len() as u16).bytes(&body.0);
+        v.push((format!("fast-path bitmap update announcing {} rectangles, 2 present", announced), framing::fastpath(0, &w.0, false)));
+    }
+    v
+}
+
 /// what the server sends after the hostile frame: the rest of an honest activation from the state the case started
 /// in, then output and data PDUs — a fault that was tolerated must not blow up later
 fn aftermath(l: &mut fsm::Live, state: u8) {
@@ -188,6 +271,13 @@ impl C06 {
                 let c2 = apply_dev(&mut bytes, &d2.kind);
                 (state, bytes, json!({"block": b, "state": state, "deviations": [d1, d2]}), c1 && c2)
             }
+            "structured" => {
+                let sv = structured_frames();
+                let n = sv.len() as u64;
+                let state = (i / n) as u8;
+                let (d, f) = sv[(i % n) as usize].clone();
+                (state, f, json!({"block": b, "state": state, "frame": d}), true)
+            }
             "frame-pairs" => {
                 let pd = inner_pdus();
                 let n = pd.len() as u64;
@@ -235,7 +325,7 @@ impl Prop for C06 {
             }
         }
         let fs = FaultSpace::new(pdu_kinds(), tier);
-        let mut blocks = vec![("single", 6 * fs.total()), ("inner-slow", self.block_count("inner-slow")), ("inner-mcs", self.block_count("inner-mcs")), ("inner-fast", self.block_count("inner-fast")), ("inner-frame", self.block_count("inner-frame")), ("frame-pairs", 6 * (inner_pdus().len() * inner_pdus().len()) as u64)];
+        let mut blocks = vec![("single", 6 * fs.total()), ("inner-slow", self.block_count("inner-slow")), ("inner-mcs", self.block_count("inner-mcs")), ("inner-fast", self.block_count("inner-fast")), ("inner-frame", self.block_count("inner-frame")), ("frame-pairs", 6 * (inner_pdus().len() * inner_pdus().len()) as u64), ("structured", 6 * structured_frames().len() as u64)];
         if tier == Tier::Thorough {
             let r = fs.reduced_count();
             blocks.push(("pairs", 2 * r * r));
@@ -254,7 +344,7 @@ impl Prop for C06 {
         d
     }
     fn rule(&self) -> String {
-        "cases = (client state 0..5 reached by the honest activation prefix, one server frame with <=1 deviation (<=2 thorough)). PDU kinds: demand-active (Windows capability list and minimal), deactivate-all, synchronize, control, font-map, set-error-info, an unparsed data PDU, two share PDUs in one frame, a confirm-active sent by the server, fast-path bitmap (raw + compressed-with-header rectangles), fast-path pointer/synchronize updates, unknown fast-path codes. Deviations: every byte offset x value set (12 boundary values + honest+-1; all 256 in thorough), every offset as 16/32-bit field in both byte orders x boundary set, every truncation, extensions {+1,+2,+1500}; [inner-*] every byte string of length <=2 (<=3 in thorough for the Data state, and state 0 at the share-control entry) and every string of length 3..4 (..6 in thorough) over 8 boundary bytes at the MCS, share-control (states 0,1,5 in quick, all six in thorough) and fast-path parser entries, and as raw unframed bytes at the frame reader; [pairs, thorough] all pairs of {byte:=00, byte:=FF, truncate} over all offsets, in states 0 and 5. [frame-pairs] every ordered pair of 10 well-formed share PDUs in one frame, in each of the six states. After the hostile frame an honest PDU is read to expose desynchronisation loops, then, when the hostile frame was tolerated (read returned Ok), the server plays the rest of an honest activation from that state followed by fast-path output and a data PDU, with an input attempt after every step: a tolerated fault must not blow up later. Non-trivial: the frame differs from the honest one.".into()
+        "cases = (client state 0..5 reached by the honest activation prefix, one server frame with <=1 deviation (<=2 thorough)). PDU kinds: demand-active (Windows capability list and minimal), deactivate-all, synchronize, control, font-map, set-error-info, an unparsed data PDU, two share PDUs in one frame, a confirm-active sent by the server, fast-path bitmap (raw + compressed-with-header rectangles), fast-path pointer/synchronize updates, unknown fast-path codes. Deviations: every byte offset x value set (12 boundary values + honest+-1; all 256 in thorough), every offset as 16/32-bit field in both byte orders x boundary set, every truncation, extensions {+1,+2,+1500}; [inner-*] every byte string of length <=2 (<=3 in thorough for the Data state, and state 0 at the share-control entry) and every string of length 3..4 (..6 in thorough) over 8 boundary bytes at the MCS, share-control (states 0,1,5 in quick, all six in thorough) and fast-path parser entries, and as raw unframed bytes at the frame reader; [pairs, thorough] all pairs of {byte:=00, byte:=FF, truncate} over all offsets, in states 0 and 5. [structured] well-formed frames with consistent length fields in each of the six states: every share-control type x version bits x body length, every pduType2 0..0x40 x payload length, compression / stream bytes, a demand-active carrying a capability of every type 0..0x1F, 0xFF, 0xFFFF x body length, capability counts off by +-1 / +100, no and 2000 capabilities, every MCS domain-PDU choice 0..63, every disconnect reason, indications on other channels / from other users, every fast-path update code x fragmentation x compression bit x body length, rectangle counts 0..0xFFFF against two present; [frame-pairs] every ordered pair of 10 well-formed share PDUs in one frame, in each of the six states. After the hostile frame an honest PDU is read to expose desynchronisation loops, then, when the hostile frame was tolerated (read returned Ok), the server plays the rest of an honest activation from that state followed by fast-path output and a data PDU, with an input attempt after every step: a tolerated fault must not blow up later. Non-trivial: the frame differs from the honest one.".into()
     }
     fn assumptions(&self) -> Vec<String> {
         vec!["memory rule: single request > 1 MiB or peak > 16 MiB + 1024 x bytes received".into(), "the six states are reached through RdpClient::read on the raw stack (hooks H3/H4); TLS record handling is not part of this property".into()]
